@@ -685,6 +685,11 @@ impl File {
             return Ok(false);
         }
         let newstamp = self.read_stamp(v)?;
+        if self.is_generated && !self.is_override && self.stamp.as_ref() == Some(&Stamp::BUILDING) {
+            // The build of this target was interrupted.  Whatever it left on
+            // disk is not the user's file: still a target (and out of date).
+            return Ok(false);
+        }
         if self.is_generated
             && (!self.is_failed(v) || !newstamp.is_missing())
             && !self.is_override
